@@ -675,7 +675,11 @@ func (m *Machine) WhenTicks(
 func (m *Machine) WhenNextActive(
 	state string, ctx context.Context,
 ) <-chan struct{} {
-	return m.WhenTicks(state, NextActiveIn(m.Tick(state)), ctx)
+	// one reading of the tick for both the distance and the base (a transition
+	// in between would make it wait for an inactive tick)
+	tick := m.Tick(state)
+
+	return m.WhenTime(S{state}, Time{tick + uint64(NextActiveIn(tick))}, ctx)
 }
 
 // WhenQuery returns a channel that will be closed when the passed [clockCheck]
